@@ -362,7 +362,12 @@ func (r *Runtime) newRegExp(patternVal, flagsVal Value, proto *Object) *regexpOb
 		if obj, ok := patternVal.(*Object); ok {
 			if rx, ok := obj.self.(*regexpObject); ok {
 				if flagsVal == nil || flagsVal == _undefined {
-					return rx.clone()
+					r1 := rx.clone()
+					if proto != nil && proto != r1.prototype {
+						// RegExpAlloc(newTarget): the new object's prototype comes from the constructor being invoked
+						r1.prototype = proto
+					}
+					return r1
 				} else {
 					return r._newRegExp(rx.source, flagsVal.toString().String(), proto)
 				}
